@@ -167,6 +167,10 @@ fn expand(st: &State, depth: usize, l: &mut Local, out: &mut Vec<State>) {
     let mut cuts: Vec<f64> = xs.clone();
     for w in xs.windows(2) {
         cuts.push(0.5 * (w[0] + w[1]));
+        // two more cuts strictly inside every segment, so that slices with both bounds inside one segment
+        // (neither on a knot) occur
+        cuts.push((0.75 * w[0] + 0.25 * w[1]).clamp(w[0], w[1]));
+        cuts.push((0.2 * w[0] + 0.8 * w[1]).clamp(w[0], w[1]));
     }
     for x in xs.iter() {
         if x.next_up() <= x1 {
@@ -548,7 +552,7 @@ pub fn ctor_cases() -> Vec<Case> {
 
 pub fn run(tier: Tier) -> i32 {
     let mut cx = Ctx::new("C17", tier, "model_checking");
-    cx.rule = "explicit-state search: initial states = every series over ascending (non-strict) abscissae from {0,1,1,2.5,4} (1..4 knots) x ordinates {-1,0,0,2}, plus NaN-carrying series; actions = between / in_interval over all pairs of cuts (knots, mid-points, knots +-1 ulp), split_at_x, scaled_by (negative and positive factors), shift_by, resampled_n, resampled_x, remove_nan, abs, y_crossings at every stored and mid level, bounds_at_y0, area; successor states de-duplicated by (xs, ys) rounded to 1e-9. Constructor sweep: every vector of length <= 4 over {-1,0,1,2.5,NaN,inf}, every push history of length <= 3, linear/linear_space over all bound pairs (both orders, equal) x n. distinct = distinct canonical states + constructor inputs".into();
+    cx.rule = "explicit-state search: initial states = every series over ascending (non-strict) abscissae from {0,1,1,2.5,4} (1..4 knots) x ordinates {-1,0,0,2}, plus NaN-carrying series; actions = between / in_interval over all pairs of cuts (knots, three interior points of every segment, knots +-1 ulp), split_at_x, scaled_by (negative and positive factors), shift_by, resampled_n, resampled_x, remove_nan, abs, y_crossings at every stored and mid level, bounds_at_y0, area; successor states de-duplicated by (xs, ys) rounded to 1e-9. Constructor sweep: every vector of length <= 4 over {-1,0,1,2.5,NaN,inf}, every push history of length <= 3, linear/linear_space over all bound pairs (both orders, equal) x n. distinct = distinct canonical states + constructor inputs".into();
     let depth = tier.pick(3, 4);
     let max_states = 3_000_000;
     cx.bounds = json!({"depth": depth, "max_states": max_states});
